@@ -1,5 +1,5 @@
 (* C07 -- Literal values survive transpilation.  Property theorems only. *)
-Require Import Base GoOps Token Lexer Tree Writer PrinterLib StringValue StringProofs.
+Require Import Base GoOps Token Lexer LexSpec Tree Writer PrinterLib StringValue RelexSpec StringProofs StableProofs.
 Require Import Gen.Tables Gen.Preds Gen.Printer.
 
 (* Every valid string literal body (either quote style; raw text incl. non-ASCII and the
@@ -41,3 +41,29 @@ Theorem C07_number_printed : forall t,
   write_expr (EFloat t) = [WComments (t_comments t); WMapping (t_start t); WString (t_lit t)].
 Proof. exact number_printed. Qed.
 Print Assumptions C07_number_printed.
+
+(* STABILITY under print + re-scan (the hypothesis of the round-trip theorems) *)
+
+(* A string literal that is valid JavaScript -- its source text (the lexeme of its token,
+   LexSpec.spans, see C10) is a quote, a body that denotes a string value (SV, the
+   specification of ECMAScript string values used by C07), and the same quote again -- is
+   scanned to a literal which, written between double quotes, scans back to itself: so
+   [strings_stable] - the one hypothesis of the round-trip theorems C01_compact_round_trip
+   and C06_pretty_round_trip - holds for every source all of whose string literals are valid.
+   ([spans src] and [tokenize src] always succeed and list the same tokens: C10_total.)
+
+   Validity must be asked of the SOURCE literal; validity of the scanned literal
+   (SV 34 (t_lit t) <> None) is not enough.  Counterexample: the invalid literal
+       "\x\x41\x42"      (bytes 34 92 120 92 120 52 49 92 120 52 50 34)
+   is scanned to the literal \xAB (92 120 65 66): the incomplete escape \x is kept verbatim,
+   \x41 and \x42 are decoded to A and B.  That literal is valid between double quotes
+   (SV 34 = Some [171]), but "\xAB" is re-scanned to the UTF-8 bytes C2 AB, so
+   relex_string (t_lit t) = false and strings_stable = false
+   (StableProofs.literal_validity_is_not_enough; likewise "\u\x41BCD"). *)
+Theorem C07_valid_strings_stable : forall src ss toks,
+  spans src = Some ss -> tokenize src = Some toks ->
+  (forall s, In s ss -> t_type (sp_tok s) = T_STRING ->
+     exists d body, (d = 34%N \/ d = 39%N) /\ sp_lexeme s = d :: body ++ [d] /\ SV d body <> None) ->
+  strings_stable toks = true.
+Proof. exact valid_strings_stable. Qed.
+Print Assumptions C07_valid_strings_stable.
